@@ -17,7 +17,7 @@ MANIFEST = dict(
     technique='Coq proof (loop invariants with fuel, bit-level rewriting, integer arithmetic over N/Z, finite sweeps by vm_compute) about '
               'algorithm-faithful hand models of the rendered C, C++ and Python support code; extracted-model vs. implementation '
               'correspondence on exhaustive small-parameter sweeps; independent big-integer oracle as falsifier',
-    text='35 theorems (mostly conjunctions of lemmas of Prims/*Thm.v, each named in the proof) + 7 examples in coq/theories/Properties/C14.v, each for EVERY offset, length, buffer, declared size and value (no '
+    text='38 theorems (mostly conjunctions of lemmas of Prims/*Thm.v, each named in the proof) + 10 examples in coq/theories/Properties/C14.v, each for EVERY offset, length, buffer, declared size and value (no '
          'bound; preconditions of the code\'s contract as guards). C (both target_endianness renderings): nunavutCopyBits copies '
          'exactly the addressed bits, leaves every other bit untouched, no out-of-range access (memmove path and bit loop); '
          'SaturateBufferFragmentBitLength; GetBits zero-extends and zero-pads; SetUxx/SetIxx/SetBit report a too-small buffer iff '
@@ -43,14 +43,20 @@ MANIFEST = dict(
          'whole domain (C14_f16_ieee_bridge); Python float members under the named struct packing law; invariant theorems for arbitrary '
          'sequences of cursor operations incl. the fork/join/header/skip pattern (Python) and store/zero/pad sequences (C++; round 7: no '
          'premise on the cursor, staying below 2^64 follows from success). Round 7: C++ setUxx/setIxx equal the C functions at EVERY '
-         'offset and length (C14_cpp_set_uxx_every_offset); Python writers under a too-small buffer: the shipped text drops a one-byte '
-         'aligned slice write at the buffer end silently (C14_py_one_byte_at_end_refuted, known finding F-PY-SER-SILENT-DROP, fix '
-         'design_notes/C14_py_too_small_fix.patch), the patched text either lands exactly the requested bits or raises with the buffer '
-         'unchanged for every writer, cursor, length and buffer size (C14_py_too_small_reported); which text is in /repo is probed on '
-         'every run (witness call) and the matching model is used. Static ties: AST shape pin of 84 Python methods (two accepted shapes: '
-         'current, patched) and token-stream pin of every function of the rendered C and C++ headers for 25 option combinations (every '
-         'Jinja branch: endianness x asserts x omit_float; C++ standards/flavours incl. pmr and cetl) - an edit of a token breaks a proof '
-         'obligation (C14_py_support_shape_pinned, C14_c_cpp_support_token_streams_pinned). Tie: extracted models vs. the headers/module rendered by nnvg from /repo (C any/little/'
+         'offset and length (C14_cpp_set_uxx_every_offset). Round 8: the Python model IS the text of /repo f2fd316 (capacity test '
+         '_ensure_writable): every writer either lands exactly the requested bits or raises with nothing stored, for every cursor, '
+         'length and buffer size (C14_py_too_small_reported + _derived: all 27 writers incl. signed, i8..i64, floats, arrays, '
+         'pad_to_alignment); the pre-fix text and its refutation are History/C14_py_history.v. C++ padAndMoveToAlignment / '
+         'subspan(bits_at, size_bits) over the whole size_t range of their arguments: the text in /repo is refuted '
+         '(C14_cpp_pad_truncation_refuted, C14_cpp_subspan_wrap_refuted; known findings F-BITSPAN-PAD-TRUNC, F-BITSPAN-SUBSPAN-WRAP, '
+         'reproduced on the real build on every run), the text of design_notes/C14_bitspan_wrap_fix.patch meets the contract at every '
+         'argument (C14_cpp_pad_every_alignment, C14_cpp_subspan_every_offset). Static ties: AST shape pin of 81 Python methods + the '
+         'member lists of the 7 classes (ONE accepted shape) and token-stream pin of every function of the rendered C and C++ headers '
+         'for 25 option combinations (every Jinja branch: endianness x asserts x omit_float; C++ standards/flavours incl. pmr and cetl); '
+         'the hash of each regenerated dump must equal the hash the model file names as the text it models (modelled_*_sha); fix '
+         'facts regenerated from /repo are obligations by reflexivity (C14_py_capacity_test_live: f2fd316, '
+         'C14_setuxx_saturating_check_live: ba46e0a, C14_bitspan_fix_state: pending patch absent), so reverting a landed fix breaks '
+         'the proof layer; a witness of a `fixed` finding that reproduces is reported as the failing input. Tie: extracted models vs. the headers/module rendered by nnvg from /repo (C any/little/'
          'big x asserts on/off, gcc + clang ASan/UBSan, + an omit-float rendering; C++14 (17, 20 thorough) x asserts, g++ + clang++ ASan, + '
          'the target_endianness=little rendering and a c++17-pmr omit-float rendering; 32-bit size_t: three C and three C++ renderings '
          'are COMPILED ONLY (clang --target=i386 -c -Werror -Wconversion/-Wshorten-64-to-32; nothing 32-bit can be linked or run here); '
@@ -68,9 +74,9 @@ MANIFEST = dict(
          'array methods raise NotImplementedError, everything else is inherited); overlapping src/dst in copy (documented UB); Python '
          'float add/fetch reduce to the byte methods through struct semantics that are assumed, not proved (x.view(uint8)/frombuffer = '
          'little-endian image likewise); fetch_aligned_array_of_bits has no separate theorem (same slice + unpackbits lemmas as the '
-         'unaligned one); Python writers of two or more bytes that raise IndexError past the end may have stored a proper prefix of the '
-         'value before raising (current and patched text for add_aligned_u8/add_unaligned_bit: no store at all; the patch removes the '
-         'partial stores of the others); 32-bit targets are compiled, never executed (no 32-bit libc/loader; gcc -m32 cannot even '
+         'unaligned one); a Python exception is modelled as `no state returned` (pad_to_alignment has then already moved the cursor of '
+         'the Python object); skip_bits with a negative argument; add_aligned_u8 of a value above 255 raises OverflowError (stated premise '
+         'x <= 255); C++ padAndMoveToAlignment(0) is a division by zero in both texts; 32-bit targets are compiled, never executed (no 32-bit libc/loader; gcc -m32 cannot even '
          'preprocess: <bits/libc-header-start.h> missing; clang uses the x86_64 glibc headers with an empty <gnu/stubs-32.h>); cetl '
          'flavour: rendered and token-pinned (equal to the c++14 stream), cannot be compiled offline (CETL headers absent).',
     design='§5 C14')
@@ -217,7 +223,7 @@ def oracle(line: str) -> typing.Optional[str]:
         return ('-3 ' + hx(buf)) if ln > max(0, 8 * size - off) else ('0 ' + hx(put_bits(buf, off, ln, 0)))
     if c == 'xpad':
         buf, size, off, n = unhex(t[1]), int(t[2]), int(t[3]), int(t[4])
-        if size > len(buf) or not 1 <= n <= 255:
+        if size > len(buf) or not 1 <= n < (1 << 64):
             return None
         pad = (n - off % n) % n
         if pad > max(0, 8 * size - off):
@@ -233,7 +239,7 @@ def oracle(line: str) -> typing.Optional[str]:
         nalloc, size, off = int(t[1]), int(t[2]), int(t[3])
         bits = int(t[4]) if c != 'xsubb' else 0
         k, o = (off + bits) // 8, (off + bits) % 8
-        if size > nalloc or (c == 'xsub2' and k > nalloc):
+        if size > nalloc:
             return None
         if c == 'xsub':
             ns = size - k if k < size else 0
@@ -816,6 +822,21 @@ def gen_cpp_cases(rng, tier: str) -> typing.List[str]:
                         L.append('xsub2 %d %d %d %d %d' % (nalloc, size, off, bits, sb))
                 for nb in range(0, size + 3):
                     L.append('xsubb %d %d %d %d' % (nalloc, size, off, nb))
+    # the whole size_t range of the arguments (findings F-BITSPAN-PAD-TRUNC / F-BITSPAN-SUBSPAN-WRAP): alignments above 255,
+    # offsets and sizes whose sums wrap around 2^64
+    T = 1 << 64
+    for size in (0, 1, 4, 40, 80):
+        for off in sorted({0, 1, 3, 7, 8, 9, 44, 255, 256, 257, 8 * size, max(0, 8 * size - 1), 8 * size + 8}):
+            for n in (256, 257, 300, 511, 512, 513, 640, 1000, 1 << 16, (1 << 32) + 8, 1 << 63, T - 8, T - 1):
+                L.append('xpad %s %d %d %d' % (hx(content(rng, rng.randrange(3), size)), size, off, n))
+    for size in (0, 1, 4, 6):
+        for off in (0, 1, 7, 8, 9, 8 * size, 8 * size + 3):
+            for at in (T - 1, T - 7, T - 8, T - 9, T - off if off else T - 16, T - off - 1, T - 8 * size - off - 1, T // 2):
+                for sb in (0, 1, 8, 8 * size):
+                    L.append('xsub2 %d %d %d %d %d' % (size + 1, size, off, at % T, sb))
+            for at in (0, 1, 8):
+                for sb in (T - 1, T - 6, T - 7, T - 8, T - 9, T - off - at if off + at else T - 16, T // 2):
+                    L.append('xsub2 %d %d %d %d %d' % (size + 1, size, off, at, sb % T))
     return L
 
 
@@ -1198,7 +1219,7 @@ def run_shard(job: dict) -> dict:
     if job.get('model_exe'):
         for m in sorted({job.get('model_for_all') or t['model'] for t in job['targets'].values()} - {None}):
             out, err, rc = _run_exe([job['model_exe'], m], text)
-            if m in ('py', 'py-chk'):
+            if m == 'py':
                 out = [canon_pydes(l, g) for l, g in zip(lines, out)]
             model_out[m] = out if (rc == 0 and len(out) == len(lines)) else None
             if model_out[m] is None:
@@ -1248,9 +1269,8 @@ def run_shard(job: dict) -> dict:
                 pv = verdicts[i]
                 if pv is None or pv[0] != got:
                     pv = verdicts[i] = (got, meets(e, got))
-                if not pv[1] and job.get('py_drop_live') and t['model'] == 'py' and isinstance(e, str) and drop_trigger(lines[i], e) \
-                        and mo is not None and mo[i] == got:
-                    res['known_instances'] = res.get('known_instances', 0) + 1      # F-PY-SER-SILENT-DROP: trigger holds, quirk model agrees
+                if not pv[1] and bitspan_trigger(lines[i]) in job.get('known_live', ()) and mo is not None and mo[i] == got:
+                    res['known_instances'] = res.get('known_instances', 0) + 1      # trigger of a live known finding holds, quirk model agrees
                 elif not pv[1] and len(res['oracle_bad']) < 50:
                     res['oracle_bad'].append({'target': name, 'line': lines[i], 'expected_by_property': str(e), 'implementation': got,
                                               'model': mo[i] if mo else None})
@@ -1264,8 +1284,8 @@ def run_shard(job: dict) -> dict:
         if mo is None:
             continue
         for i, got in enumerate(mo):
-            if m == 'py' and job.get('py_drop_live') and isinstance(expected[i], str) and drop_trigger(lines[i], expected[i]):
-                continue
+            if bitspan_trigger(lines[i]) in job.get('known_live', ()):
+                continue      # the quirk model of a live known finding is not held against the property
             if expected[i] is not None and not meets(expected[i], got) and len(res['model_bad']) < 50:
                 res['model_bad'].append({'target': 'model ' + m, 'line': lines[i], 'model': got, 'expected_by_property': str(expected[i])})
     res['strata'] = sorted(res['strata'])
@@ -1301,37 +1321,37 @@ def native_f16_job(job: dict) -> dict:
 DROP_ID = 'F-PY-SER-SILENT-DROP'
 
 
-def drop_trigger(line: str, expected: str) -> bool:
-    """trigger of F-PY-SER-SILENT-DROP: the property demands an exception at op k and op k is an aligned slice writer whose packed
-    source is exactly one byte long"""
-    if not (line.startswith('pyser') and expected.startswith('EXC@')):
-        return False
-    ops = line.split(' ')[2].split(';')
-    k = int(expected[4:])
-    if k >= len(ops):
-        return False
-    t = ops[k].split(':')
-    if t[0] == 'ab':
-        return len(unhex(t[1])) == 1
-    if t[0] in ('au', 'as'):
-        return 1 <= int(t[2]) <= 8
-    if t[0] == 'abits':
-        return 1 <= len('' if t[1] == '-' else t[1]) <= 8
-    if t[0] == 'aa':
-        return len(unhex(t[2])) == 1
-    return False
-
-
 WRAP_ID = 'F-SETUXX-OFFSET-WRAP'
+PAD_ID = 'F-BITSPAN-PAD-TRUNC'
+SUB_ID = 'F-BITSPAN-SUBSPAN-WRAP'
+PAD_WITNESS = 'xpad ' + '00' * 80 + ' 80 8 512'
+SUB_WITNESS = 'xsub2 4 4 8 18446744073709551609 8'
+
+
+def is_wide_pad(line: str) -> bool:
+    return line.startswith('xpad ') and int(line.rsplit(' ', 1)[1]) > 255
+
+
+def bitspan_trigger(line: str) -> typing.Optional[str]:
+    """id of the known finding whose trigger the call meets: an alignment that does not fit uint8_t; a subspan whose offset sum or
+    size sum passes 2^64"""
+    if is_wide_pad(line):
+        return PAD_ID
+    if line.startswith('xsub2 '):
+        t = line.split(' ')
+        off, at, sb = int(t[3]), int(t[4]), int(t[5])
+        if off + at >= (1 << 64) or (off + at) % 8 + sb >= (1 << 64):
+            return SUB_ID
+    return None
 
 
 def ensure_known_loaded(chk: core.Check) -> None:
-    """known_findings.json is merged from known_findings.d/ by the lead at development time; until then read the fragment (read-only)"""
+    """known_findings.json is merged from known_findings.d/ by the lead; the fragment of this property is authoritative for its own
+    entries (a status flipped there takes effect at once, also before the next merge)"""
     frag = os.path.join(core.VERIF, 'known_findings.d', 'C14.json')
     try:
         for e in json.load(open(frag))['findings']:
-            if chk.known_entry(e['id']) is None:
-                chk.known.append(e)
+            chk.known[:] = [k for k in chk.known if k['id'] != e['id']] + [e]
     except Exception:
         pass
 
@@ -1398,26 +1418,48 @@ def main(chk: core.Check, replay: typing.Optional[str] = None) -> int:
     for e in errors + cpp_errors + py_errors:
         broken.append('implementation build: ' + e[:600])
 
-    # offset wrap in the capacity check of SetUxx (F-SETUXX-OFFSET-WRAP, fixed in /repo ba46e0a): the witness is probed on the real
-    # builds in a process of its own on every run
+    # Findings with a witness: each witness is run on the real builds, in a process of its own, on EVERY run.
+    #   status fixed + witness reproduces  -> the defect is back: VIOLATION with the witness as failing input;
+    #   status known + witness reproduces  -> KNOWN-FINDING line, the model of the text in /repo (which has the quirk) is compared,
+    #                                         calls that meet the finding's trigger and agree with that model are counted, not reported;
+    #   witness does not reproduce         -> the conformant model is compared and every call must meet the property.
     ensure_known_loaded(chk)
-    wrap = probe_offset_wrap(chk, dict(targets, **cpp_targets))
-    wrap_live = any(v.startswith('reproduces') for v in wrap.values())
-    if wrap_live and chk.is_known(WRAP_ID):
-        chk.report_known(WRAP_ID)
-    wrap_regression = wrap_live and not chk.is_known(WRAP_ID)
-    # F-PY-SER-SILENT-DROP: probe the witness on the rendered module; live -> quirk model `py` + KNOWN-FINDING line;
-    # repaired (design_notes/C14_py_too_small_fix.patch landed) -> model `py-chk`, no line
-    py_drop_live = False
+    regressions: typing.List[dict] = []
+    wrap = probe_offset_wrap(chk, dict(targets, **cpp_targets))                       # F-SETUXX-OFFSET-WRAP, fixed in /repo ba46e0a
+    for name, v in wrap.items():
+        if v.startswith('reproduces'):
+            if chk.is_known(WRAP_ID):
+                chk.report_known(WRAP_ID)
+            else:
+                regressions.append({'target': name, 'line': 'su 0000 2 18446744073709551608 255 16', 'implementation': v, 'finding': WRAP_ID,
+                                    'expected_by_property': '-3 0000 (too-small buffer reported, nothing written)'})
+    py_drop_live = False                                                              # F-PY-SER-SILENT-DROP, fixed in /repo f2fd316
     if py_targets:
         t = py_targets['py_support']
         e = chk.known_entry(DROP_ID)
-        o, err, rc = _run_exe(t['cmd'], ((e or {}).get('witness', {}).get('line') or 'pyser 2 sk:24;ab:77') + '\n', env=t['env'])
+        w = (e or {}).get('witness', {}).get('line') or 'pyser 2 sk:24;ab:77'
+        o, err, rc = _run_exe(t['cmd'], w + '\n', env=t['env'])
         py_drop_live = bool(o) and not o[0].startswith('EXC')
-        if py_drop_live and chk.is_known(DROP_ID):
-            chk.report_known(DROP_ID)
-        if not py_drop_live:
-            py_targets = {k: dict(v, model='py-chk') for k, v in py_targets.items()}     # capacity test present: model of the patched writers
+        if py_drop_live:
+            regressions.append({'target': 'py_support', 'line': w, 'implementation': o[0], 'finding': DROP_ID,
+                                'expected_by_property': 'EXC@1 (the write does not fit: an exception, nothing stored)'})
+    known_live: typing.List[str] = []
+    bitspan = {}
+    probe_t = cpp_targets.get('cpp_cpp14_noasserts')
+    for fid, w, good in ((PAD_ID, PAD_WITNESS, lambda o: o[0].startswith(('0 512 ', '-3 '))), (SUB_ID, SUB_WITNESS, lambda o: o[0] == '-3')):
+        if not probe_t:
+            continue
+        o, err, rc = _run_exe([probe_t['exe']], w + '\n')
+        live = not (rc == 0 and o and good(o))
+        bitspan[fid] = 'reproduces: ' + (o[0][:40] if o else 'crash (exit %s)' % rc) if live else 'does not reproduce'
+        if live and chk.is_known(fid):
+            chk.report_known(fid)
+            known_live.append(fid)
+        elif live:
+            regressions.append({'target': 'cpp_cpp14_noasserts', 'line': w, 'implementation': o[0] if o else 'crash (exit %s)' % rc, 'finding': fid,
+                                'expected_by_property': '0 512 <80 zero bytes> (cursor on a multiple of 512)' if fid == PAD_ID else '-3 (offset beyond the buffer)'})
+    cpp_model = 'cpp' + ('' if bitspan.get(PAD_ID, '').startswith('reproduces') else '+pad') + ('' if bitspan.get(SUB_ID, '').startswith('reproduces') else '+sub')
+    cpp_targets = {k: dict(v, model=cpp_model) for k, v in cpp_targets.items()}
     timing['builds_s'] = round(time.time() - t0 - timing['coq_s'], 1)
     t1 = time.time()
     # 3. cases
@@ -1440,17 +1482,21 @@ def main(chk: core.Check, replay: typing.Optional[str] = None) -> int:
     cpp_noassert = {k: v for k, v in cpp_targets.items() if 'noasserts' in k}
     is_x = lambda l: l[0] == 'x'
     is_xsub = lambda l: l.startswith(('xsub', 'xat', 'xob', 'xmis', 'xso'))
+    # while F-BITSPAN-PAD-TRUNC is live the assert builds abort on its trigger (assert(offset_alings_to(n_bits))): those calls go to
+    # the builds without asserts only
+    wide_pad_targets = cpp_noassert if PAD_ID in known_live else cpp_targets
     jobs = []
     for fam_targets, fam_lines, mfa in ((all_targets, [l for l in lines if not l.startswith('f16p ') and not is_x(l) and not is_py(l)], None),
                                         (py_targets, [l for l in lines if is_py(l)], None),
                                         (py_f16, f16_sample, None),
-                                        (cpp_targets, [l for l in lines if is_x(l) and not is_xsub(l)], None),
+                                        (cpp_targets, [l for l in lines if is_x(l) and not is_xsub(l) and not is_wide_pad(l)], None),
+                                        (wide_pad_targets, [l for l in lines if is_wide_pad(l)], None),
                                         (cpp_noassert, [l for l in lines if is_xsub(l)], None),
                                         (grid_targets, [l for l in lines if l.startswith('f16p ')], 'c-any')):
         if not fam_targets:
             continue
         jobs += [{'lines': fam_lines[i:i + chunk], 'targets': fam_targets, 'model_exe': mexe, 'tie_stats_target': tie_target, 'model_for_all': mfa,
-                  'py_drop_live': py_drop_live and chk.is_known(DROP_ID)}
+                  'known_live': tuple(known_live)}
                  for i in range(0, len(fam_lines), chunk)]
     results = []
     with concurrent.futures.ProcessPoolExecutor(max_workers=min(8, max(1, len(jobs)))) as ex:
@@ -1517,7 +1563,7 @@ def main(chk: core.Check, replay: typing.Optional[str] = None) -> int:
                          'copy_strata_src_mod8_dst_mod8_len_mod8': '%d of 512' % len(strata),
                          'float16_pack_C_vs_struct_e': f16_vs_struct,
                          'float16_native_sweep_no_model': native,
-                         'offset_wrap_probe': wrap, 'py_silent_drop_live': py_drop_live,
+                         'offset_wrap_probe': wrap, 'py_silent_drop_live': py_drop_live, 'bitspan_probes': bitspan, 'cpp_model_variant': cpp_model,
                          'known_finding_instances': sum(r.get('known_instances', 0) for r in results),
                          'float16_rounding_rules': 'C/C++ nunavutFloat16Pack: nearest, ties away from zero (proved: f16_rounding_rule); '
                                                    'Python struct/NumPy: nearest, ties to even; both are allowed by C14 (nearest or adjacent)'},
@@ -1534,23 +1580,20 @@ def main(chk: core.Check, replay: typing.Optional[str] = None) -> int:
         if 'x' in w and not judge_f16_pack(w['x'], str(w['c'])):
             oracle_bad.append({'target': 'c_any_noasserts (native sweep)', 'line': 'f16p %d' % w['x'], 'implementation': str(w['c']),
                                'expected_by_property': describe_f16_pack(w['x'])})
-    if wrap_regression:
-        for name, v in wrap.items():
-            if v.startswith('reproduces'):
-                oracle_bad.append({'target': name, 'line': 'su 0000 2 18446744073709551608 255 16', 'implementation': v,
-                                   'expected_by_property': '-3 0000 (too-small buffer reported, nothing written)'})
     if native['c_vs_cpp_mismatch']:
         model_bad.append({'target': 'cpp_cpp14_noasserts vs c_any_noasserts (native sweep)', 'line': 'f16pr %(start)d %(count)d 1' % native['c_vs_cpp_mismatch'][0],
                           'model': native['c_vs_cpp_mismatch'][0]['c_digest'], 'implementation': native['c_vs_cpp_mismatch'][0]['cpp_digest'],
                           'expected_by_property': 'C and C++ carry the same float16Pack: equal digests'})
     impl_crashes = [c for c in crashes if not c['target'].startswith('model')]
-    if oracle_bad or impl_crashes:
-        cands = sorted(oracle_bad, key=case_weight) or impl_crashes
+    if regressions or oracle_bad or impl_crashes:
+        # a fixed finding whose witness reproduces comes first: the witness is the failing input that is reported
+        cands = regressions + sorted(oracle_bad, key=case_weight) or impl_crashes
         b = cands[0]
         chk.violation({'line': b.get('line'), 'target': b['target'], 'expected_by_property': b.get('expected_by_property'),
                        'implementation': b.get('implementation', b.get('stderr')), 'model': b.get('model'),
                        'what': 'a support-library primitive does not meet its contract on this call (smallest of %d failing calls)' % len(cands),
-                       'n_failing': len(oracle_bad), 'crashes': impl_crashes[:3], 'broken': broken}, found_input=True)
+                       'n_failing': len(oracle_bad) + len(regressions), 'regressed_findings': sorted({r['finding'] for r in regressions}),
+                       'crashes': impl_crashes[:3], 'broken': broken}, found_input=True)
     elif model_bad or crashes:
         b = sorted(model_bad, key=case_weight)[0] if model_bad else crashes[0]
         chk.violation({'line': b.get('line'), 'target': b['target'], 'model': b.get('model'), 'implementation': b.get('implementation'),
